@@ -453,7 +453,10 @@ def run_family(ctx, mod):
         wi, wm = common.run_impl(wreq), common.run_model(wreq)
         ctx.case(("witness", wreq[0]))
         (_, a0), (_, m0), (l1, a1), (l1m, m1) = parse_set(wi[0]), parse_set(wm[0]), parse_set(wi[1]), parse_set(wm[1])
-        if not (a0 and m0 and a0 <= m0 and a1 and m1 and a1 <= m1 and l1 == l1m == "file" and m0 == m1 == {"camel", "snake"}):
+        # the model answers with the set of BOTH styles while the code walks its HashMap (Gen.fileContextCanonicalOrder =
+        # false), and with the one style the canonical order gives since repo commit 40204b5
+        ok_sets = (m0 == m1 == {"camel", "snake"}) or (m0 == m1 and len(m0) == 1 and a0 == m0 and a1 == m1)
+        if not (a0 and m0 and a0 <= m0 and a1 and m1 and a1 <= m1 and l1 == l1m == "file" and ok_sets):
             ctx.broke("correspondence", "witness file_context_tie_hash_order", {"impl": wi, "model": wm})
             BROKEN.append("witness")
         elif len(a0) > 1 or len(a1) > 1:
